@@ -341,6 +341,7 @@ class Violation:
 
 class Item:
     """Context of one work item inside a worker process."""
+    _counter = 0
 
     def __init__(self, pid, name, params, tier, seed, findings):
         self.pid, self.name, self.params, self.tier, self.seed = pid, name, params, tier, seed
@@ -363,6 +364,11 @@ class Item:
         self.cvc5_checked = 0
         self.pins = (params or {}).get("__pins__")
         self._t0 = time.time()
+        Item._counter += 1
+        self._uid = Item._counter
+        core._BASE_DECIDED.clear()
+        core._BASE_KEEP.clear()
+        core._BASE_SOLVERS.clear()
         self.real_inputs = []      # z3 Real variables handed to the code as floats (made dyadic in samples)
         self.robust_eps = None     # Fraction: margin used when choosing validation samples / counterexamples
         self.boundary_paths = 0
@@ -406,7 +412,8 @@ class Item:
     # ---- exploring
     def explore(self, fn, maxpaths=20000):
         before = core.STATS.solver_s
-        paths = core.explore(fn, base=self.assumptions, maxpaths=maxpaths)
+        paths = core.explore(fn, base=self.assumptions, maxpaths=maxpaths,
+                             base_key=(self._uid, len(self.assumptions)) if getattr(self, "share_base", False) else None)
         self.solver_s += core.STATS.solver_s - before
         self.paths += len(paths)
         self.nontrivial += sum(1 for p in paths if len(p.pc) > len(self.assumptions))
